@@ -17,6 +17,8 @@ def run(ctx):
     for m, mr in zip(muts, res):
         if not mr.violated:
             raise vlib.Infra("vacuity: LogSink mutant %s violates nothing" % m)
+    # unbounded: any number of goroutines, records and derived handler nodes, by the TLA+ proof system
+    ctx.tlaps("logger", "LogSinkProof", timeout=900, tag="LogSinkProof (inductive invariant: one writer at a time, own line, pool safety)")
     hb = ctx.build("logsink")
     ctx.run([hb, "-out", ctx.path("traces.ndjson"), "-runs", "2" if q else "12", "-hammer", "40000" if q else "300000", "-goroutines", "8", "-records", "100" if q else "300"], timeout=2400)
     rows = vlib.read_ndjson(ctx.path("traces.ndjson"))
